@@ -2,7 +2,7 @@ from __future__ import print_function
 import logging
 from ast import Name as AstName, Attribute, Call
 
-from .util import np
+from .util import np, partial_answer
 from .compat import HAS_CONSTANTS
 from .name import (ImportedName, MultiName, MultiValue, Object,
                    RuntimeName, Resolvable, AssignedName, Callable,
@@ -35,7 +35,11 @@ class EvalCtx(object):
 
     def evaluate(self, node):
         # type: (AST | Object | Name | None) -> Object | None
-        if node is None or node in self.nodes:
+        if node is None:
+            return None
+        if node in self.nodes:
+            # a cycle: this node is being evaluated further up
+            partial_answer()
             return None
         self.nodes.add(node)
         self.level += 1
